@@ -33,7 +33,7 @@ func c02case(c GCase, a *run.Acc) {
 	} else {
 		gd = gram.NewGuard(env.Base)
 		gd.MaxEvents, gd.MaxCalls = 150000, 150000
-		b = gram.Build(g, &gram.Hooks{Inside: gd.Inside, Outside: gd.Outside, MemoExpr: c.MemoExpr, ShareLeaves: true,
+		b = gram.Build(g, &gram.Hooks{Budget: gd.LeafTick, Inside: gd.Inside, Outside: gd.Outside, MemoExpr: c.MemoExpr, ShareLeaves: true,
 			// the activation bound is claimed for EVERY memoized parser, also the extra wrappers around sub-expressions
 			UnderMemo: func(e *gram.Expr, p parsley.Parser) parsley.Parser { return gd.Inside(1000+e.ID, p) }})
 		c02cache = c01built{g: g, memo: c.MemoExpr, gd: gd, b: b}
